@@ -385,13 +385,17 @@ func (x *acExec) runStream() (*acRec, error) {
 		}
 		x.before = append([]sim.Content(nil), ppg.Ref...)
 	case "snap":
-		for _, v := range []int{19, 20} {
+		vs := []int{19, 20}
+		if s.Rk == "behind2" {
+			vs = []int{18, 19, 20} // the snapshot reaches TXID 3
+		}
+		for _, v := range vs {
 			if err := commitJ(ppg, sim.Plan{Ns: s.Na, M: seqTo(s.Na), V: v}, nil, nil); err != nil {
 				x.infra("pre-state: %v", err)
 				return nil, nil
 			}
 		}
-		if tr := map[string]int{"fresh": 0, "behind": 1, "equal": 2, "ahead": 3}[s.Rk]; tr > 0 {
+		if tr := map[string]int{"fresh": 0, "behind": 1, "behind2": 2, "equal": 2, "ahead": 3}[s.Rk]; tr > 0 {
 			// the replica's own history is written by a node that was primary on its own
 			fdir := filepath.Join(x.base, "F")
 			_ = os.MkdirAll(fdir, 0o777)
@@ -418,7 +422,7 @@ func (x *acExec) runStream() (*acRec, error) {
 		}
 		// the replica connects as soon as it runs: the recorder starts by itself with the first step
 		// of the snapshot's arrival (the state copied before that step is the pre-state)
-		if tr := map[string]int{"fresh": 0, "behind": 1, "equal": 2, "ahead": 3}[s.Rk]; tr > 0 {
+		if tr := map[string]int{"fresh": 0, "behind": 1, "behind2": 2, "equal": 2, "ahead": 3}[s.Rk]; tr > 0 {
 			if fs, _ := sim.ListLTX(filepath.Join(rdir, "dbs", acDB)); len(fs) > 0 {
 				x.bpos = acPos{fs[len(fs)-1].Max, fs[len(fs)-1].Post}
 			}
